@@ -4,8 +4,8 @@ CONSTANTS
   CleanupIds = {"c1", "c2", "c3"}
   DetailNames <- NamesAll
   Mismatches = {"m0", "m1", "m2"}
-  Attrs = {"a_exist", "a_missing"}
-  Fixtures = {"f_ok", "f_tb", "f_bad", "f_cr"}
+  Attrs = {"a_exist", "a_missing", "a_none"}
+  Fixtures = {"f_ok", "f_tb", "f_two", "f_bad", "f_cr"}
   MaxFaults = 4
   MaxSteps = 3
   MaxTotalSteps = 8
